@@ -4,6 +4,7 @@ import ast
 import inspect
 import re
 import sys
+import threading
 import tokenize
 import types
 from ast import NodeTransformer, NodeVisitor
@@ -20,6 +21,10 @@ from .utils import ABSENT, DictPile
 
 _IDX = count()
 _GENERIC = Element(name=None)
+
+# Serializes the changes to the instrumentation of functions: several threads
+# may activate and deactivate probes on the same function concurrently.
+tooling_lock = threading.RLock()
 
 
 class Key:
@@ -1189,17 +1194,20 @@ class SyncedStackedTransforms(StackedTransforms):
         self.target = fn
 
     def _conform(self, new):
-        self.tset._conform(new)
-        self._apply(self.target)
-        self.conformer.code = new.__code__
+        with tooling_lock:
+            self.tset._conform(new)
+            self._apply(self.target)
+            self.conformer.code = new.__code__
 
     def push(self, captures):
-        super().push(captures)
-        self._apply(self.target)
+        with tooling_lock:
+            super().push(captures)
+            self._apply(self.target)
 
     def pop(self, captures):
-        super().pop(captures)
-        self._apply(self.target)
+        with tooling_lock:
+            super().pop(captures)
+            self._apply(self.target)
 
     def _apply(self, fn):
         _, code, info, token = self.get()
